@@ -12,8 +12,8 @@ ID = 'C10'
 BOUNDS = {
     # pair: all ordered pairs of comment-free rule trees with up to that many nodes each, written as two top-level rules
     # (what an earlier subtree leaves behind meets every later subtree), compact layout, every position
-    'quick': dict(nodes=4, depth=3, rotations=14, layouts=D.LAYOUTS, big=0, pair=4),
-    'thorough': dict(nodes=5, depth=3, rotations=14, layouts=D.LAYOUTS, big=6, pair=5),
+    'quick': dict(nodes=4, depth=3, rotations=15, layouts=D.LAYOUTS, big=0, pair=4),
+    'thorough': dict(nodes=5, depth=3, rotations=15, layouts=D.LAYOUTS, big=6, pair=5),
 }
 NSH = 64
 
@@ -57,7 +57,7 @@ def docs(tier):
     small = [t for n in range(1, b['pair'] + 1) for t in D.trees(n, b['depth']) if t[0] == 'R' and no_comment([t])]
     for i, a in enumerate(small):
         for j, c in enumerate(small):
-            yield [a, c], (i + j) % 14, 'compact', False
+            yield [a, c], (i + j) % 15, 'compact', False
 
 
 def no_comment(sh):
